@@ -400,7 +400,7 @@ class Engine(StmtMixin):
         return self.obligations[n0:]
 
     def oblige_sat(self, st: State, line: int, name: str) -> None:
-        ob = Obligation(f"{self.cur_fn_key}:vacuity:{line}:{name}", self.cur_fn_key, "vacuity", line, list(st.pc), z3.BoolVal(False), (), "must NOT be provable")
+        ob = Obligation(f"{self.cur_fn_key}:vacuity:{name}", self.cur_fn_key, "vacuity", line, list(st.pc), z3.BoolVal(False), (), "must NOT be provable")
         self.obligations.append(ob)
 
     def exit_line(self, oc) -> int:
